@@ -250,7 +250,7 @@ static void flowCase(Rng &rng, CaseResult &r, const std::string &profile, unsign
 // ------------------------------------------------------------------------------------------------
 // C11, second source of legal placements: direct construction by packing cells into free segments
 static void c11Constructed(Rng &rng, CaseResult &r) {
-  GenOpts o = makeProfile(rng, "rowhigh");
+  GenOpts o = makeProfile(rng, rng.chance(0.25) ? "big20" : "rowhigh");
   o.multiRow = false;
   o.turned = rng.chance(0.5);
   Circuit c0 = genCircuit(rng, o);
@@ -389,6 +389,13 @@ static void c03Global(Rng &rng, CaseResult &r) {
   o.minRowWidth4H = true;
   o.maxCells = std::min(o.maxCells, 25);
   Circuit c0 = genCircuit(rng, o);
+  if (rng.chance(0.3)) {
+    // some movable cells of zero area (the C06 domain only asks for one movable cell of positive area)
+    std::vector<int> mov;
+    for (int i = 0; i < c0.nbCells(); ++i) if (!c0.cellIsFixed_[i]) mov.push_back(i);
+    for (size_t k = 1; k < mov.size(); ++k) if (rng.chance(0.3)) { if (rng.chance(0.5)) c0.cellWidth_[mov[k]] = 0; else c0.cellHeight_[mov[k]] = 0; }
+    c0.hasCellSizeUpdate_ = false;
+  }
   std::string pdesc, gdesc;
   ColoquinteParameters params = genParams(rng, true, &pdesc);
   if (rng.chance(0.5)) genGlobalParams(rng, params, &gdesc, 15); else params.global.maxNbSteps = (int)rng.range(1, 20);
@@ -601,7 +608,7 @@ int main(int argc, char **argv) {
   for (std::string prof : {"general", "manyfixed", "dense", "obstruction", "crowded", "faraway"})
     add("c03.flow." + prof, [prof](uint64_t, Rng &rng, CaseResult &r) { flowCase(rng, r, prof, O_C03); });
   add("c03.global", [](uint64_t, Rng &rng, CaseResult &r) { c03Global(rng, r); });
-  for (std::string prof : {"general", "rowhigh", "obstruction", "polarity", "dense", "crowded"})
+  for (std::string prof : {"general", "rowhigh", "obstruction", "polarity", "dense", "crowded", "big20"})
     add("c11.relegalize." + prof, [prof](uint64_t, Rng &rng, CaseResult &r) { flowCase(rng, r, prof, O_C11); });
   add("c11.constructed", [](uint64_t, Rng &rng, CaseResult &r) { c11Constructed(rng, r); });
   for (std::string prof : {"general", "degenerate", "big", "wide", "dense", "multirow", "obstruction", "floating"})
